@@ -52,7 +52,7 @@ Definition labels_of (e : entry) : list text :=
   | EnNote => [T "Note"; T "Notes"]
   | EnAuthor => [T "Author"; T "Authors"]
   | EnSince => [T "Present Since"]
-  | EnUnknown tag => [T "Unknown Field: " ++ tag]
+  | EnUnknown tag => [(T "Unknown Field: " ++ tag)%list]
   end.
 
 (* ---- how often the text of field i is shown -------------------------------------------------------- *)
